@@ -21,6 +21,9 @@ def main():
     err = None
     try:
         for w in worlds:
+            if ocf.ranking_system == "custom" and ocf.ranks[w] is None:
+                ranks[w] = None     # a custom object has no way to compute a missing rank
+                continue
             ranks[w] = ocf.rank_world(w)
         verdicts = [bool(ocf.conditional_acceptance(bridge.mk_cond(fm.from_json(B), fm.from_json(A)))) for B, A in qs]
     except BaseException as e:  # noqa: BLE001
